@@ -105,16 +105,9 @@ theorem prayerTimesDt_ok_of_times (p : Params α) (loc : Location α) (rd : Int)
     unfold getImsaak imsaakOf
     obtain ⟨h1, hh1⟩ := getHoursAdjExt_ok (imsaakParams1 p) (topFromJd (JD.new rd loc.gmt) loc.coords) (w.getD defaultWeather)
     obtain ⟨h2, hh2⟩ := getHoursAdjExt_ok (imsaakParams2 p) (topFromJd (JD.new rd loc.gmt) loc.coords) (w.getD defaultWeather)
-    simp only [hh1, hh2]
-    cases hf1 : h1.fajr with
-    | none => exact ⟨_, rfl⟩
-    | some f1 =>
-      obtain ⟨t1, ht1⟩ := hconv (imsaakParams1 p) .Fajr f1.value
-      cases hf2 : h2.fajr with
-      | none => cases he : f1.extreme <;> simp [toPrayerTime, ht1, he]
-      | some f2 =>
-        obtain ⟨t2, ht2⟩ := hconv (imsaakParams2 p) .Fajr f2.value
-        cases he : f1.extreme <;> simp [toPrayerTime, ht1, ht2, he]
+    obtain ⟨h0, hh0⟩ := getHoursAdjExt_ok p (topFromJd (JD.new rd loc.gmt) loc.coords) (w.getD defaultWeather)
+    simp only [hh1, hh2, hh0]
+    cases fajrExtreme h1 <;> cases fajrExtreme h0 <;> simp <;> exact hopt _ _ _
   obtain ⟨im, him⟩ := him
   obtain ⟨f, hf⟩ := hopt p .Fajr h.fajr
   obtain ⟨s, hs⟩ := hopt p .Shurooq h.shur
